@@ -74,6 +74,9 @@ func runChild(scs []*Scenario, slot int, perEpisode time.Duration) []runOut {
 	var cmd *exec.Cmd
 	ctx, cancel := context.WithTimeout(context.Background(), perEpisode*time.Duration(len(scs))+10*time.Second)
 	defer cancel()
+	if _, terr := exec.LookPath("taskset"); terr != nil {
+		env.CPUs = 0 // no way to restrict the CPU set: run with all CPUs
+	}
 	if cl := cpuList(env.CPUs, slot); cl != "" {
 		cmd = exec.CommandContext(ctx, "taskset", append([]string{"-c", cl, bin}, args...)...)
 	} else {
